@@ -162,11 +162,29 @@ inline void run(Ctx& ctx, Case c) {
   Buf B = in_ab ? A0 : (c.alias & 2) ? R : ar.alloc(ext(c.bs, bsl), mid ? MID : (c.seed & 4) ? OVER : UNDER, (c.misalign * 5 + 16) % 64, 3, c.seed + 12);
   int64_t *res = R.as<int64_t>(), *a = A.as<int64_t>(), *b = B.as<int64_t>();
   const bool same_ab = (c.alias & 3) == 3 || in_ab;  // a and b are the very same buffer
-  for (uint64_t i = 0; i < (same_ab ? std::max(c.as, c.bs) : c.as); ++i)
-    for (uint64_t q = 0; q < n; ++q) a[i * asl + q] = rng.sbits(c.bits);
+  // per-limb data family: dense random (half of the limbs), the zero polynomial, zero on a leading / trailing part, one non-zero
+  // coefficient, one repeated value -- "skip the zero limb" / "all coefficients equal" shortcuts must see their trigger
+  auto fill_limb = [&](int64_t* p) {
+    const uint64_t fam = rng.below(10);
+    const uint64_t cut = n > 1 ? 1 + rng.below(n - 1) : 0;
+    const int64_t rep = rng.sbits(c.bits);
+    const uint64_t one = rng.below(n);
+    for (uint64_t q = 0; q < n; ++q) {
+      int64_t x = rng.sbits(c.bits);
+      switch (fam) {
+        case 5: x = 0; break;
+        case 6: if (q < cut) x = 0; break;
+        case 7: if (q >= cut) x = 0; break;
+        case 8: if (q != one) x = 0; break;
+        case 9: x = rep; break;
+        default: break;
+      }
+      p[q] = x;
+    }
+  };
+  for (uint64_t i = 0; i < (same_ab ? std::max(c.as, c.bs) : c.as); ++i) fill_limb(a + i * asl);
   if (!same_ab)
-    for (uint64_t i = 0; i < c.bs; ++i)
-      for (uint64_t q = 0; q < n; ++q) b[i * bsl + q] = rng.sbits(c.bits);
+    for (uint64_t i = 0; i < c.bs; ++i) fill_limb(b + i * bsl);
   // boundary values in a few places
   if (c.as && n) a[rng.below(n)] = ((int64_t)1 << c.bits) - 1;
   if (c.bs && n && !same_ab) b[rng.below(n)] = -(((int64_t)1 << c.bits) - 1);
